@@ -26,6 +26,17 @@ CORR = ("ticker", "sim")
 def run(tier, seed, drv):
     res = simprop.generic_run(tier, seed, drv, monitors_on=MON, corr=CORR)
     direct_part(tier, random.Random(seed + 1), drv, res)
+    # tickit's own IoBox devices wired into each other (list values travel by reference): what a device "reported at its
+    # previous update" must not be altered by anybody downstream
+    from sim import run_scenario
+    from . import simcommon as SC
+    from .c03 import iobox_scenarios
+    for scn in iobox_scenarios():
+        for b in ("sync", "internal"):
+            run_ = run_scenario(scn, bus=b, seed=seed)
+            res.case(SC.scn_key(scn) + b, nontrivial=True)
+            res.count("iobox-chain")
+            SC.check_run(scn, run_, drv, res, monitors_on=("change_detection", "device_order"), corr=(), case_extra={"bus": b, "held_seed": seed})
     return res
 
 
